@@ -44,7 +44,7 @@ def random_spec(rng):
 
 def fill_case(rng, c, sim):
     n = c["n"]
-    c["tmin"] = str(rng.choice([F(0), F(0), F(1), F(-1, 2)]))
+    c["tmin"] = str(rng.choice([F(0), F(0), F(1), F(-1, 2), F(16384)]))
     c["tmax"] = str(F(c["tmin"]) + rng.choice([F(1, 2), 2, 4, 8]))
     if sim == "Gillespie_simple_contagion":
         if rng.random() < 0.7:
